@@ -95,6 +95,14 @@ func ruleOwn5(c *Ctx, r *Reporter) {
 		if _, ok := pdSinks[funcName(fn)]; ok {
 			continue
 		}
+		// an unexported method of a driver type is part of the driver layer (the body of an exported method moved
+		// into a helper both it and a sibling use): what it does with the argument is examined through the
+		// transfer/mutate events below like that of an exported method
+		if recv := fn.Signature.Recv(); recv != nil && fn.Parent() == nil && fnPkgPath(fn) == pkgLungo && !isBucketFile(c, fn) {
+			if n := derefNamed(recv.Type()); n != nil && driverTypeNames[n.Obj().Name()] {
+				continue
+			}
+		}
 		for _, p := range fn.Params {
 			if s.param[p].deep&tPD != 0 {
 				r.bad(funcName(fn)+":receives driver argument "+p.Name(), c.pos(fn.Pos()), "a container owned by the caller of a driver method reaches this function without passing Transform: it could be retained or modified")
